@@ -198,6 +198,12 @@ def gen_program(rnd, n_ops, pid):
             ops.append({"op": "mp-list-parts", "bucket": bks[0], "key": k_, "upload": u, "max": mx, "marker": marker})
     ops.append({"op": "mp-list-uploads", "bucket": bks[0], "key": k_, "upload": u, "max": 1000, "marker": 0})
     ops.append({"op": "mp-abort", "bucket": bks[0], "key": k_, "upload": u})
+    # ... copies whose source key has characters that a query-style decoder reads differently ('+' vs space, '%'), next to their twins
+    for k_, sz in (("enc/a+b", 21), ("enc/a b", 22), ("enc/a%2Bb", 23), ("enc/a%20b", 24)):
+        ops.append({"op": "put", "bucket": bks[0], "key": k_, "size": sz, "salt": newsalt(), "content": CONTENT[0], "meta": METAS[0], "tags": TAGS[0]})
+    for i_, k_ in enumerate(("enc/a+b", "enc/a b", "enc/a%2Bb", "enc/a%20b")):
+        ops.append({"op": "copy", "bucket": bks[0], "key": "enc/copy%d" % i_, "srcbucket": bks[0], "src": k_, "replace": False, "content": CONTENT[0], "meta": METAS[0], "tags": TAGS[0]})
+        ops.append({"op": "get", "bucket": bks[0], "key": "enc/copy%d" % i_, "range": ""})
     # ... and with a version history that is listed with every combination of markers, read and deleted by version id
     ops.append({"op": "put-versioning", "bucket": bks[0], "status": "Enabled"})
     for key in ("ver/a", "ver/b", "ver/a", "ver/c", "ver/b"):
